@@ -713,7 +713,10 @@ def _handle_harmony(e, position, part):
                     )
                 text, cadence_annotation = text[0], text[1]
                 part.add(score.Cadence(cadence_annotation), position)
-            part.add(score.RomanNumeral(text), position)
+            if text:
+                # save_musicxml writes a cadence as <function>|PAC</function>:
+                # there is no roman numeral in front of the bar
+                part.add(score.RomanNumeral(text), position)
     elif e.find("kind") is not None and e.find("root") is not None:
         # TODO: handle kind text which is other kind of annotation also root
         kind = e.find("kind").get("text")
